@@ -145,6 +145,12 @@ TypeOf(x, C, P) ==
                     THEN <<"adt", x.adt>> ELSE ERR
     [] e = "rep" -> IF "%adt" \in DOMAIN C.G /\ C.G["%adt"].t = <<"adt", x.adt>> /\ TypeOf(x.v, C, P) = <<"adt", x.adt>>
                     THEN P.adts[x.adt + 1].rep ELSE ERR
+    \* body where { x: T == v; .. }: constants of the body; their values are typed in the outer context
+    [] e = "where" ->
+         LET C1 == [C EXCEPT !.G = [n \in {x.defs[i].x : i \in 1..Len(x.defs)} |->
+                                      [t |-> x.defs[CHOOSE i \in 1..Len(x.defs) : x.defs[i].x = n].t, asg |-> FALSE]] @@ C.G]
+         IN IF (\A i \in 1..Len(x.defs) : Fits(TypeOf(x.defs[i].v, C, P), x.defs[i].t)) /\ Fits(TypeOf(x.body, C1, P), x.t)
+            THEN x.t ELSE ERR
     [] e = "tuple" -> LET ts == TypesOf(x.args, C, P) IN
                       IF Len(ts) >= 2 /\ (\A i \in 1..Len(ts) : Ok(ts[i]) /\ ts[i] # ANY /\ ts[i][1] # "tup") THEN <<"tup", ts>> ELSE ERR
     [] e = "masg" -> LET vt == TypeOf(x.v, C, P) IN
